@@ -14,8 +14,8 @@ MISSING = [
     "variant of the real routine for n = 3, m = 2 (and on the estimator's 6x1 / 6x2 uses in C11); n = m = 1 with CasADi's symbolic QR inlined; "
     "ca.qr meeting the contract, and the variant composed with ca.qr being the shipped routine, are checked numerically each run; other sizes: search only",
     "LDL^T for EVERY size n: theorems of Props/C10G over the hand model Model/Ldl.lean (unit lower triangular L, L D L^T = P on the lower triangle "
-    "given non-zero pivots, on the whole matrix for symmetric P), tied to the real routine by the correspondence run of this check (sizes 1..6, "
-    "unit / tiny / huge / mixed scales) — that tie is sampled, not proved; UDU^T for every n: not modelled generically (proved for the translated sizes)",
+    "given non-zero pivots, on the whole matrix for symmetric P), PROVED equal to the translated programs of sizes 2, 3, 4 (gen_ldlN_L / gen_ldlN_D) and tied to the real routine by the correspondence run of this check "
+    "(sizes 1..6, unit / tiny / huge / mixed scales, symmetric and non-symmetric input) — that second tie is sampled, not proved; UDU^T for every n: not modelled generically (proved for the translated sizes)",
     "RK4 order 4 for arbitrary smooth vector fields (proved: exact for cubic-in-time derivatives, degree-4 Taylor polynomial of the linear ODE, consistency)",
 ]
 
